@@ -807,6 +807,8 @@ class Interp:
                     if all(self.cx.branch(self.truth(self.eval(c, f2))) for c in g.ifs):
                         out.append(self.comp_elt(e, f2, kind))
                 return V.finish_comp(self, out, kind)
+            if kind == "set" and hasattr(it, "sym_setcomp"):
+                return it.sym_setcomp(self, e, g, frame)
             if g.ifs:
                 raise Unsupported("filtered comprehension over a symbolic iterable")
             seq = V.as_symseq(self, it)
